@@ -149,6 +149,7 @@ def view_seq(ex, view):
         i = z3.Int('en_i')
         run.axiom(z3.Length(r) == z3.Length(base.t))
         run.axiom(P.forall([i], z3.Implies(z3.And(i >= 0, i < z3.Length(base.t)), r[i] == tk.mk(i + st, base.t[i])), patterns=[r[i]]))
+        run.ghost.setdefault('_enum', {})[r.sexpr()] = (tk, st, base.t)
         return Sym(sk, r)
     if kind == 'reversed':
         base = as_seq(ex, view.base)
